@@ -292,6 +292,28 @@ fn run(defs: &[Def]) -> Result<Outcome, V> {
                 }
             }
         }
+        // error payloads and cancel responses that NAME an instrument / asset are indexed the same way
+        for (name, idx) in &own_names {
+            out.checks += 2;
+            use barter_execution::{error::{ApiError, UnindexedOrderError}, order::request::OrderResponseCancel};
+            let ukey = OrderKey { exchange: e_id, instrument: (*name).clone(), strategy: StrategyId::new("s"), cid: ClientOrderId::new("c") };
+            let resp = indexer.order_response_cancel(OrderResponseCancel { key: ukey, state: Err(UnindexedOrderError::Rejected(ApiError::InstrumentInvalid((*name).clone(), "x".into()))) });
+            let ok = match &resp {
+                Ok(r) => r.key.instrument == *idx && r.key.exchange == e_idx && matches!(&r.state, Err(barter_execution::error::OrderError::Rejected(ApiError::InstrumentInvalid(i, _))) if i == idx),
+                Err(_) => false,
+            };
+            if !ok {
+                return Err(("account_event_indexed_onto_wrong_instrument", format!("indexer of {e_id}: cancel response / InstrumentInvalid error naming {name} -> {resp:?}, expected {idx}")));
+            }
+        }
+        for (name, idx) in &own_assets {
+            out.checks += 1;
+            use barter_execution::error::{ApiError, UnindexedOrderError};
+            let got = indexer.order_error(UnindexedOrderError::Rejected(ApiError::BalanceInsufficient((*name).clone(), "x".into())));
+            if !matches!(&got, Ok(barter_execution::error::OrderError::Rejected(ApiError::BalanceInsufficient(a, _))) if a == idx) {
+                return Err(("balance_indexed_onto_wrong_asset", format!("indexer of {e_id}: BalanceInsufficient error naming {name} -> {got:?}, expected {idx}")));
+            }
+        }
         for (name, idx) in &own_assets {
             out.checks += 2;
             let bal = AssetBalance { asset: (*name).clone(), balance: Balance::new(Decimal::ONE, Decimal::ONE), time_exchange: fixtures::t(1) };
